@@ -38,12 +38,12 @@ ASSUMPTIONS = [
 
 SHIPPED_NAMES = {"meter", "kilo", "second"}
 SHIPPED_SYMS = {"m", "k", "s", "d", "da", "L"}
-NAMES = ["vfa", "vfb", "vfc", "vfd", "meter", "kilo", "length", "second", "vf e", ""]
+NAMES = ["vfa", "vfb", "vfc", "vfd", "meter", "kilo", "length", "second", "vf e", "", "va", "vb"]  # "va", "vb" are also symbols
 SYMS = ["va", "vb", "vc", "vd", "m", "k", "L", "s", "v x", "", "d", "da"]
 MODS = [m for m in SHIPPED_MODULES]
 LOOKUPS = ["va", "vb", "vc", "vd", "kva", "kvb", "mvc", "hh", "ha", "cd", "nmi", "min.", "Pa", "TR", "dam", "kt", "dm", "hm", "vfa", "vfb"]
 OPS = ["lookup", "anon_dim", "name_dim_ctor", "derive_dim", "anon_prefix", "name_prefix", "define_unit", "anon_unit", "derive_unit",
-       "alias", "alias_bad", "import", "define_dim"]
+       "alias", "alias_bad", "import", "define_dim", "scale"]
 
 
 def setup(tier):
@@ -55,7 +55,7 @@ def budget(tier):
 
 
 def strategy(tier):
-    OP = st.sampled_from(OPS + ["lookup", "anon_prefix", "name_prefix", "anon_dim", "derive_dim", "alias", "define_unit", "derive_unit", "import"])
+    OP = st.sampled_from(OPS + ["lookup", "scale", "anon_prefix", "name_prefix", "anon_dim", "derive_dim", "alias", "define_unit", "derive_unit", "import"])
     I = st.integers(0, 999)
     step = st.tuples(OP, I, I, I, I).map(list)
     return st.builds(lambda steps: {"steps": steps}, st.lists(step, min_size=4, max_size=25))
@@ -360,6 +360,16 @@ def run_case(case) -> core.Outcome:
             elif op == "alias_bad":
                 r.current_call = "Unit.alias"
                 units[c % len(units)].alias(name=name or "vfz", symbol=BadSymbol(sym or "vz"))
+            elif op == "scale":
+                # Dimension.scale defines a unit and then declares its zero point; the zero may be
+                # a proper quantity, a quantity of another dimension, or not a quantity at all
+                r.current_call = "Dimension.scale"
+                named_something = True
+                dim = dims[c % len(dims)]
+                zero = [2.5 * units[d % len(units)], 3 * m.One, 5, None][(a + d) % 4]
+                u = dim.scale(zero, name, sym)
+                units.append(u)
+                nontrivial_keys.add(("scale", argclass, type(zero).__name__))
             elif op == "lookup":
                 # resolving / parsing a text *before* something declares it must not influence
                 # what it resolves to afterwards
@@ -388,7 +398,7 @@ def run_case(case) -> core.Outcome:
             after = r.snapshot()
             if after != before:
                 changed = sorted(k for k in before if before[k] != after.get(k))
-                out.fail(f"C19:failed-call-mutated:{op}:{'+'.join(changed)}", f"{op}({name!r}, {sym!r}) raised {type(raised).__name__}: {raised} but changed {changed}")
+                out.fail(f"C19:failed-call-mutated:{op}", f"{op}({name!r}, {sym!r}) raised {type(raised).__name__}: {raised} but changed {changed}")
         r.check(out, f"after {op}({name!r}, {sym!r})")
         if out.failures:
             break
